@@ -26,7 +26,9 @@ TARGETS = [
     ('pydoctor.epydoc2stan', 'safe_to_stan', {'.to_stan(': ['Exception']}),
     ('pydoctor.epydoc.markup', 'ParsedDocstring.get_summary',
      {'.to_node(': ['Exception'], 'SummaryExtractor(': ['Exception'], '.walk(': ['Exception']}),
-    ('pydoctor.epydoc.markup', 'ParsedDocstring.get_toc', {'.to_node(': ['NotImplementedError']}),
+    # since /repo ef2e650 get_toc and the search index writer guard to_node() with `except Exception`
+    ('pydoctor.epydoc.markup', 'ParsedDocstring.get_toc', {'.to_node(': ['Exception']}),
+    ('pydoctor.templatewriter.search', 'LunrIndexWriter.format_docstring', {'.to_node(': ['Exception']}),
     ('pydoctor.templatewriter.pages', 'format_signature', {'str(': ['Exception'], 'html2stan(': ['Exception']}),
     ('pydoctor.astbuilder', 'ASTBuilder.parseFile', {'parseFile(': ['SyntaxError', 'ValueError']}),
     ('pydoctor.astbuilder', 'ASTBuilder.parseString', {'_parse(': ['SyntaxError', 'ValueError']}),
